@@ -77,6 +77,14 @@ class DictView:
         self.fr = eng.run.fresh_of(tv.t) if isinstance(tv, TV) and tv.sort == "val" else None
         if self.fr is not None and self.fr.kind != "dict":
             raise _U("not a dict")
+        if self.fr is None and isinstance(tv, TV) and tv.sort == "val":
+            ws = eng.run.world_dict_state(tv.t)
+            if ws is not None:
+                # a world dict that this activation has written to (it is in `modifies`): read its current state
+                from .symexec import Fresh
+                f = Fresh(-1, "dict", None, None)
+                f.length, f.arr, f.has, f.get = ws["len"], ws["arr"], ws["has"], ws["get"]
+                self.fr = f
 
     def has(self, kv):
         if self.fr is not None:
@@ -1027,7 +1035,15 @@ def setitem(eng, base, idx, value, node, frame):
     fr = run.fresh_of(base.t) if base.sort == "val" else None
     if fr is None:
         if base.sort == "val" and run.container_allowed(base.t):
-            raise _U("item store into in-world container listed in modifies")
+            if not run._entails(eng.isinstance_expr(base.t, [eng.ct.ext["dict"]])):
+                raise _U("item store into in-world container listed in modifies")
+            from .symexec import Fresh
+            ws = run.world_dict_state(base.t, create=True)
+            f = Fresh(-1, "dict", None, None)
+            f.length, f.arr, f.has, f.get = ws["len"], ws["arr"], ws["has"], ws["get"]
+            dict_set(eng, f, idx, value)
+            ws["len"], ws["arr"], ws["has"], ws["get"] = f.length, f.arr, f.has, f.get
+            return
         run.obligation("frame", z3.BoolVal(False), node, note="item store into an object that is not fresh")
         from .symexec import PathEnd
         raise PathEnd()
@@ -1913,6 +1929,11 @@ def call_builtin(eng, name, args, kwargs, node, frame):
     if name.startswith("dsl."):
         return call_dsl(eng, name[4:], args, kwargs, node, frame)
     if name == "len":
+        a0 = args[0]
+        if isinstance(a0, TV) and a0.sort == "val":
+            ws = run.world_dict_state(a0.t)
+            if ws is not None:
+                return tv_int(ws["len"])
         return tv_int(length_of(eng, args[0], node, frame))
     if name == "isinstance":
         v = args[0]
@@ -2498,7 +2519,10 @@ def dsl_lazy(eng, name, node, frame):
             body = eng.truth_of(eng.eval(lam.body, f2))
         finally:
             run.cond_stack.pop()
-        return tv_bool(z3.ForAll([x], z3.Implies(dv.has(x), body), patterns=[dv.get(x)]))
+        pat = dv.get(x)
+        if z3.is_app(pat) and pat.decl().kind() == z3.Z3_OP_SELECT and not z3.is_const(pat.arg(0)):
+            return tv_bool(z3.ForAll([x], z3.Implies(dv.has(x), body)))       # a computed array is no valid trigger
+        return tv_bool(z3.ForAll([x], z3.Implies(dv.has(x), body), patterns=[pat]))
     if name == "forall_in":
         seq = eng.eval(node.args[0], frame)
         lam = node.args[1]
@@ -2685,8 +2709,94 @@ def _new_consts(exprs, run, since):
 
 
 def filtered_comprehension(eng, node, frame, kind, view):
-    """[e for x in xs if c]: result abstracted: length <= len(xs); every element satisfies c and is some e(x)."""
-    raise _U("filtered comprehension over symbolic-length sequence")
+    """[e for x in xs if c] over a sequence of symbolic length.  The result is a fresh list L of unknown length n with
+    two skolem functions: src(j) = the source position element j comes from (increasing, satisfies c, L[j] = e(xs[src j]))
+    and pos(i) = where source element i went, for every i that satisfies c (L[pos i] = e(xs[i]), src(pos i) = i).
+    Together: L lists exactly the e(x) of the x that satisfy c, in order.  Element evaluation must not raise."""
+    run = eng.run
+    from .symexec import SeqView, Frame
+    gen = node.generators[0]
+    k = z3.Int(run.fresh_name("fk"))
+    rng = z3.And(0 <= k, k < view.length)
+    f2 = Frame({}, parent=frame)
+    f2.qualname = frame.qualname
+    nfacts = len(run.facts)
+    nraises = len(run.merge_raises)
+    ncount = run.peek_counter()
+    run.merge_depth += 1
+    run.cond_stack.append(rng)
+    run.skolem_stack.append(k)
+    try:
+        eng.assign_target(gen.target, view.nth(k), f2)
+        conds = [eng.truth_of(eng.eval(c, f2)) for c in gen.ifs]
+        cond = z3.And(conds) if len(conds) > 1 else conds[0]
+        run.cond_stack.append(cond)
+        try:
+            elt = eng.eval(node.elt, f2)
+        finally:
+            run.cond_stack.pop()
+    finally:
+        run.skolem_stack.pop()
+        run.cond_stack.pop()
+        run.merge_depth -= 1
+    new_facts = run.facts[nfacts:]
+    del run.facts[nfacts:]
+    raises = run.merge_raises[nraises:]
+    del run.merge_raises[nraises:]
+    elt_t = eng.to_tv(elt).val()
+    consts = _new_consts([elt_t, cond] + new_facts, run, ncount)
+    subst = [(c, z3.Function(c.decl().name() + "_f", z3.IntSort(), c.sort())(k)) for c in consts]
+    if raises:
+        from .symexec import PyRaise
+        if run.merge_depth or run.merge_only:
+            raise _U("filtered comprehension whose element or condition may raise, in merge mode")
+        if run.track_exc or run.try_depth:
+            opts = [("normal", None, None)] + [("raise", c, e) for c, e in raises]
+            cnds = [z3.BoolVal(True)] + [z3.And(rng, c) if c is not None else rng for c, e in raises]
+            ch = run.choose(len(opts), cnds, "comp-raise")
+            if ch > 0:
+                _, c, e = opts[ch]
+                run.assume(rng)
+                for f in new_facts:
+                    run.assume(f)
+                if c is not None:
+                    run.assume(c)
+                raise PyRaise(eng.new_exception(e), e, where=(node.lineno, "comprehension element"))
+            for c, e in raises:
+                if c is not None:
+                    ck = z3.substitute(c, *subst) if subst else c
+                    run.assume(z3.ForAll([k], z3.Implies(rng, z3.Not(ck))))
+    elt_k = z3.substitute(elt_t, *subst) if subst else elt_t
+    cond_k = z3.substitute(cond, *subst) if subst else cond
+    facts_k = [z3.substitute(f, *subst) if subst else f for f in new_facts]
+    if facts_k:
+        run.assume(z3.ForAll([k], z3.Implies(rng, z3.And(facts_k))))
+    n = z3.Int(run.fresh_name("flen"))
+    arr = z3.Const(run.fresh_name("farr"), z3.ArraySort(z3.IntSort(), S.Val))
+    srcf = z3.Function(run.fresh_name("fsrc"), z3.IntSort(), z3.IntSort())
+    posf = z3.Function(run.fresh_name("fpos"), z3.IntSort(), z3.IntSort())
+    j = z3.Int(run.fresh_name("fj"))
+    j2 = z3.Int(run.fresh_name("fj2"))
+    run.assume(z3.And(n >= 0, n <= view.length))
+    at = lambda e, idx: z3.substitute(e, (k, idx))
+    run.assume(z3.ForAll([j], z3.Implies(z3.And(0 <= j, j < n),
+                                         z3.And(0 <= srcf(j), srcf(j) < view.length, at(cond_k, srcf(j)), z3.Select(arr, j) == at(elt_k, srcf(j)),
+                                                posf(srcf(j)) == j)),
+                         patterns=[z3.Select(arr, j)]))
+    run.assume(z3.ForAll([j, j2], z3.Implies(z3.And(0 <= j, j < j2, j2 < n), srcf(j) < srcf(j2)), patterns=[z3.MultiPattern(srcf(j), srcf(j2))]))
+    pats = [posf(k)]
+    src_elt = eng.to_tv(view.nth(k)).val()
+    if z3.is_app(src_elt) and src_elt.decl().kind() == z3.Z3_OP_UNINTERPRETED and _mentions_const(src_elt, k):
+        pats.append(src_elt)
+    run.assume(z3.ForAll([k], z3.Implies(z3.And(rng, cond_k), z3.And(0 <= posf(k), posf(k) < n, z3.Select(arr, posf(k)) == elt_k, srcf(posf(k)) == k)),
+                         patterns=pats))
+    run.assumptions_used.add("filtered comprehension over a sequence of unknown length: result characterised by skolem position functions")
+    if kind == "gen":
+        return SeqView(n, lambda i: tv_val(z3.Select(arr, i)))
+    fr = run.alloc("list", eng.ct.ext["list"])
+    fr.length = n
+    fr.arr = arr
+    return TV(fr.term)
 
 
 def _mentions_const(e, c):
